@@ -1431,18 +1431,430 @@ def gen_e2e(rng, tier):
         yield {"kind": "e2e", "sub": rng.randrange(1 << 30)}
 
 
+# ================================================================================================================
+# EXTENSION (xl04): long-range gates and swaps at chain level (Model/CheckerChain.lean `lrMul` / `lrLayer` / `runStepsLR`,
+#                   Props/C04.lean Part E)
+# ================================================================================================================
+# kind `e2e-lr` (one real `iterate` on a random pair WITH long-range two-qubit gates and swaps: n = 3..6, distances 2..5, both
+# orientations, the long-range gates in circuit 1, circuit 2 or both, several in a row, hitting an MPO that already has bonds > 1;
+# thresholds 1e-13 / 1e-14).  The run goes through `run_pair` (label "e2e-lr": event list vs `iter`, sub-ties, wire order, loop
+# bound, final MPO); around it every real `apply_long_range_layer` is recorded: all tensors before / after, the gate object and
+# its `mpo_tensors` (copied when `convert_dag_to_tensor_algorithm` returns them, i.e. before `rotate`), the two temporal zones of
+# every pair update, the block handed to every `decompose_theta` and what the SVD returned.
+#   * `e2e-lr-layer` (oracle, no model): per layer  to_matrix(after) = Z1 . G . to_matrix(before) . Z2^dagger  (gate of circuit 1)
+#     resp.  Z1 . to_matrix(before) . G^dagger . Z2^dagger  (gate of circuit 2), G = qiskit Operator of the single gate on the
+#     register, Z1 / Z2 the embedded zone products of the layer's pair updates
+#   * `e2e-lr-tie`: up to three layers per run through the driver's `lrlayer` request (`lrGateTensors`, `lrMul`, `lrLayer`):
+#     the matrix handed to every SVD of the layer, every kept rank, the tensors of the span afterwards; one `lrstack` per run
+#   * `e2e-lr-order` (oracle): to_matrix(final) = U1.U2^dagger with the order asserted, swapped call = U2.U1^dagger
+#   * `e2e-lr-verdict` / `e2e-lr-idtrace`: the scalar of `check_if_identity` = tr(U1^dagger U2); verdict around the overlap
+#   * spec ties (hypotheses of C04.40 / C04.41): `GateMpoOK` (to_matrix of gate.mpo_tensors = gate.tensor on the END sites of the
+#     span), gate.tensor in site order = qiskit's operator, `SymLR` (the 4x4 matrix is symmetric), `ExactBlocks` (kept part of every
+#     SVD reproduces its block), the run has the shape `runStepsLR` assumes (each layer starts from what the previous call left,
+#     touches only its span, one pair update per entry of `lrPairs`, zone of circuit 1 plain then zone of circuit 2 conjugated)
+ELR = {"n": 0, "layers": 0, "layers_top": 0, "layers_bottom": 0, "tied_layers": 0, "skipped_big": 0, "layer_dev": 0.0, "order_dev": 0.0,
+       "scalar_dev": 0.0, "gatempo_dev": 0.0, "gatempo_bad": 0, "gatempo_detail": "", "sym_dev": 0.0, "sym_bad": 0, "sym_detail": "",
+       "exact_rel": 0.0, "exact_bad": 0, "exact_detail": "", "shape_bad": 0, "shape_detail": "", "max_bond": 1, "max_span": 0,
+       "swap_layers": 0, "bonded_layers": 0, "row_layers": 0, "scalar_bad": 0, "scalar_detail": "", "order_discriminating": 0}
+ELR_STEP_TOL = 1e-8        # per layer, relative; largest seen on the clean tree over seeds 0..7: 3e-15
+ELR_MAX_TIE_ENTRIES = 2048 # rows*cols of the largest block of a layer sent to the driver
+
+
+class LayerRec(UpdateRec):
+    """UpdateRec + every call of the real `apply_long_range_layer` (gate object, gate-MPO tensors, zones, splits)"""
+
+    def __init__(self):
+        super().__init__()
+        self.layers, self.splits, self.gates = [], [], []
+
+    def patches(self):
+        base = super().patches()
+        o_lr, o_dec = mu.apply_long_range_layer, mu.decompose_theta
+        inner_conv = dict((name, fn) for _, name, fn in base)["convert_dag_to_tensor_algorithm"]
+        rec = self
+
+        def conv(x):
+            r = inner_conv(x)
+            if isinstance(x, DAGOpNode):
+                g = r[0]
+                rec.gates.append({"gate": g, "mpo": [np.array(t) for t in g.mpo_tensors], "tensor": np.array(g.tensor),
+                                  "instr": [x.op.name, [q._index for q in x.qargs], [float(p) for p in x.op.params]]})  # noqa: SLF001
+            return r
+
+        def dec(theta, threshold):
+            k = len(rec.svds)
+            r = o_dec(theta, threshold)
+            rec.splits.append({"theta": np.array(theta), "svd": rec.svds[-1] if len(rec.svds) > k else None,
+                               "out": (np.array(r[0]), np.array(r[1]))})
+            return r
+
+        def lr(mpo, dag1, dag2, threshold, *, conjugate):
+            rec.mpo = mpo
+            c = {"conj": bool(conjugate), "thr": float(threshold), "before": [np.array(t) for t in mpo.tensors],
+                 "z0": len(rec.zones.calls), "p0": len(rec.splits), "g0": len(rec.gates), "u0": len(rec.updates)}
+            r = o_lr(mpo, dag1, dag2, threshold, conjugate=conjugate)
+            c["after"] = [np.array(t) for t in mpo.tensors]
+            c["zones"] = rec.zones.calls[c["z0"]:]
+            for z in c["zones"]:
+                z["circuit"] = 1 if z.get("dag") is dag1 else 2 if z.get("dag") is dag2 else (2 if z["conj"] else 1)
+            c["splits"] = rec.splits[c["p0"]:]
+            c["gobj"] = rec.gates[c["g0"]] if len(rec.gates) > c["g0"] else None
+            c["order"] = len(rec.layers) + len(rec.updates)
+            rec.layers.append(c)
+            return r
+
+        return ([(m, n, conv if n == "convert_dag_to_tensor_algorithm" else f) for m, n, f in base]
+                + [(mu, "decompose_theta", dec), (mu, "apply_long_range_layer", lr)])
+
+
+def embed_ends(g4, span):
+    """two-site tensor g4[a,b,c,e] on the END sites of `span` sites, identity in between"""
+    mid = 2 ** (span - 2)
+    return np.einsum("abce,mn->ambcne", np.asarray(g4, dtype=complex), np.eye(mid)).reshape(4 * mid, 4 * mid)
+
+
+def lr_gate(rng, n, dist=None, name=None):
+    name = name or rng.choice(TWOQ)
+    dist = dist or rng.randrange(2, n)
+    a = rng.randrange(0, n - dist)
+    b = a + dist
+    if rng.random() < 0.5:
+        a, b = b, a
+    return [name, [a, b], [_angle(rng) for _ in range(NPAR.get(name, 0))]]
+
+
+def lr_pair(rng):
+    n = rng.choice([3, 3, 4, 4, 5, 5, 6])
+    style = rng.choice(["lr1", "lr2", "both", "row", "bonds", "swap", "mixed", "equiv"])
+    few = lambda k: nn_instrs(rng, n, rng.randrange(0, k))      # noqa: E731
+    if style == "lr1":
+        i1, i2 = few(4) + [lr_gate(rng, n)] + few(4), few(6)
+    elif style == "lr2":
+        i1, i2 = few(6), few(4) + [lr_gate(rng, n)] + few(4)
+    elif style == "both":
+        i1, i2 = few(3) + [lr_gate(rng, n)] + few(3), few(3) + [lr_gate(rng, n)] + few(3)
+    elif style == "row":                                        # several long-range gates in a row, in one circuit or in both
+        row = [lr_gate(rng, n) for _ in range(rng.randrange(2, 4))]
+        other = [lr_gate(rng, n) for _ in range(rng.randrange(0, 3))]
+        i1, i2 = (few(2) + row + few(2), few(2) + other) if rng.random() < 0.5 else (few(2) + other, few(2) + row + few(2))
+    elif style == "bonds":                                      # the long-range gate hits an MPO that already has bonds > 1
+        ent = [[rng.choice(["cx", "rzz", "rxx", "cp"]), [q, q + 1] if rng.random() < 0.5 else [q + 1, q], []] for q in range(n - 1)]
+        for g in ent:
+            g[2] = [_angle(rng) for _ in range(NPAR.get(g[0], 0))]
+        one = [[rng.choice(["h", "rx", "ry", "sx"]), [q], []] for q in range(n)]
+        for g in one:
+            g[2] = [_angle(rng) for _ in range(NPAR.get(g[0], 0))]
+        pre = one + ent + few(2)
+        if rng.random() < 0.5:
+            i1, i2 = pre + [lr_gate(rng, n, dist=n - 1)] + few(2), few(3)
+        else:
+            i1, i2 = pre, few(2) + [lr_gate(rng, n, dist=n - 1)] + few(2)
+    elif style == "swap":
+        sw = [lr_gate(rng, n, name="swap") for _ in range(rng.randrange(1, 3))]
+        i1, i2 = (few(3) + sw + few(2), few(3) + [lr_gate(rng, n, name=rng.choice(["swap", "cx"]))]) if rng.random() < 0.5 else \
+                 (few(4), few(2) + sw + few(2))
+    elif style == "mixed":
+        i1 = rand_instrs(rng, n, rng.randrange(1, 9), plong=0.5, p1=0.35)
+        i2 = rand_instrs(rng, n, rng.randrange(1, 9), plong=0.5, p1=0.35)
+    else:                                                       # an equivalent pair (the verdict can be "equivalent")
+        i1 = few(3) + [lr_gate(rng, n)] + few(3) + ([lr_gate(rng, n)] if rng.random() < 0.5 else [])
+        i2 = resynth(rng, i1)
+        if rng.random() < 0.5:
+            i2 = i2 + [["rz", [rng.randrange(n)], [rng.choice([1e-3, 0.05, 0.4])]]]
+    return n, i1, i2, style
+
+
+def layer_steps(c):
+    """the pair updates of one recorded layer: [(m, zone of circuit 1, zone of circuit 2, split)] or None if the call is not shaped that way"""
+    zs, sp = c["zones"], c["splits"]
+    if len(zs) != 2 * len(sp):
+        return None
+    steps = []
+    for k, d in enumerate(sp):
+        z1, z2 = zs[2 * k], zs[2 * k + 1]
+        if not (z1["conj"] is False and z2["conj"] is True and z1["n"] == z2["n"] and d["svd"] is not None):
+            return None
+        steps.append((z1["n"], z1, z2, d))
+    return steps
+
+
+def run_e2e_lr(inp):
+    rng = random.Random(inp["sub"])
+    if "c1" in inp:
+        n, i1, i2, style = inp["n"], inp["c1"], inp["c2"], "corpus"
+    else:
+        n, i1, i2, style = lr_pair(rng)
+    thr = inp.get("threshold") or rng.choice([1e-13, 1e-14])
+    rec = LayerRec()
+    with patched(rec.patches()), t_capture_svd(rec.svds):
+        out = run_pair(inp, i1, i2, n, thr, "e2e-lr")
+    main = out[0]
+    if rec.mpo is None or "done" not in str(main.get("impl", "")):
+        return out
+    mpo = rec.mpo
+    ELR["n"] += 1
+    ELR["layers"] += len(rec.layers)
+    u1, u2 = unitary(n, i1), unitary(n, i2)
+    dim = 2**n
+    probs, sprobs = [], []
+    # ---------------------------------------------------------------- every call (layer or update) starts from what the previous one left
+    ident = [np.expand_dims(np.eye(2, dtype=complex), (2, 3)) for _ in range(n)]
+    # updates made INSIDE a layer do not exist (apply_long_range_layer does not call update_mpo); chain the outer calls
+    prev = ident
+    outer = []
+    for c in rec.layers:
+        outer.append((c["u0"], 0, c))
+    for k, u in enumerate(rec.updates):
+        outer.append((k, 1, u))
+    outer.sort(key=lambda t: (t[0], t[1]))
+    for _, kind, c in outer:
+        if len(c["before"]) != n or any(a.shape != b.shape or not np.array_equal(a, b) for a, b in zip(c["before"], prev)):
+            sprobs.append(f"a {'layer' if kind == 0 else 'update'} does not start from the tensors the previous call left")
+            break
+        prev = c["after"]
+    if outer and any(not np.array_equal(a, np.asarray(b)) for a, b in zip(prev, mpo.tensors)):
+        sprobs.append("the final tensors are not those the last call left")
+    # ---------------------------------------------------------------- per layer: dense oracle + spec ties
+    tie_cands = []
+    lossy = 0.0                                                 # largest |to_matrix(gate MPO) - gate| of this run (split_tensor's 1e-6 cut)
+    for li, c in enumerate(rec.layers):
+        g = c["gobj"]
+        if g is None:
+            sprobs.append(f"layer {li}: no gate object was built")
+            continue
+        name, qs, ps = g["instr"]
+        lo, hi = min(qs), max(qs)
+        span = hi - lo + 1
+        ELR["max_span"] = max(ELR["max_span"], span)
+        ELR["layers_bottom" if c["conj"] else "layers_top"] += 1
+        ELR["swap_layers"] += name == "swap"
+        ELR["bonded_layers"] += any(t.shape[2] > 1 or t.shape[3] > 1 for t in c["before"][lo:hi + 1])
+        steps = layer_steps(c)
+        want_pairs = [lo + i for i in range(span) if i != span - 1 and i % 2 == 0] + ([hi - 1] if span % 2 == 1 else [])
+        if steps is None or [s[0] for s in steps] != want_pairs:
+            sprobs.append(f"layer {li} ({name} on {qs}): pair updates at {None if steps is None else [s[0] for s in steps]}, expected {want_pairs}")
+            steps = None
+        for j in range(n):
+            if not (lo <= j <= hi) and not np.array_equal(c["before"][j], c["after"][j]):
+                sprobs.append(f"layer {li} ({name} on {qs}) changed tensor {j} outside its span")
+        gobj = g["gate"]
+        if [int(q) for q in gobj.sites] != [int(q) for q in qs] or int(gobj.interaction) != 2 or gobj.name == "I":
+            sprobs.append(f"gate object for {name} on {qs} has sites {list(gobj.sites)} interaction {gobj.interaction} name {gobj.name}")
+        # GateMpoOK: the gate-MPO tensors are a chain over the span whose operator is gate.tensor on the END sites
+        if len(g["mpo"]) != span or g["mpo"][0].shape[2] != 1 or g["mpo"][-1].shape[3] != 1:
+            ELR["gatempo_bad"] += 1
+            ELR["gatempo_detail"] = f"{name} on {qs}: {len(g['mpo'])} gate-MPO tensors for a span of {span} sites, outer bonds {g['mpo'][0].shape[2]}, {g['mpo'][-1].shape[3]}"
+        else:
+            gm_mat = custom_mpo(g["mpo"]).to_matrix()
+            dev = float(np.abs(gm_mat - embed_ends(g["tensor"], span)).max())
+            g_full = unitary(n, [g["instr"]])
+            dev2 = float(np.abs(np.kron(np.kron(np.eye(2**lo), embed_ends(g["tensor"], span)), np.eye(2 ** (n - hi - 1))) - g_full).max())
+            ELR["gatempo_dev"] = max(ELR["gatempo_dev"], dev, dev2)
+            lossy = max(lossy, dev if dev > 1e-9 else 0.0)
+            # split_tensor drops operator-Schmidt values <= 1e-6: a gate within 1e-6 of a product operator is represented to that accuracy only
+            if dev > 2e-6 or dev2 > 1e-9:
+                ELR["gatempo_bad"] += 1
+                ELR["gatempo_detail"] = (f"{name}{ps} on {qs}: |to_matrix(gate.mpo_tensors) - gate.tensor on the end sites| = {dev:.2e}, "
+                                         f"|gate.tensor on the register - qiskit| = {dev2:.2e}")
+        g4 = np.asarray(g["tensor"], dtype=complex).reshape(4, 4)
+        sdev = float(np.abs(g4 - g4.T).max())
+        ELR["sym_dev"] = max(ELR["sym_dev"], sdev)
+        if sdev > 1e-12:
+            ELR["sym_bad"] += 1
+            ELR["sym_detail"] = f"{name} on {qs}: stored 4x4 matrix is not symmetric (|G - G^T| = {sdev:.2e})"
+        # dense oracle
+        g_full = unitary(n, [g["instr"]])
+        z1, z2 = np.eye(dim, dtype=complex), np.eye(dim, dtype=complex)
+        for z in c["zones"]:
+            for ins in z["instrs"]:
+                e = embed(local_unitary([ins], z["n"]), z["n"], n)
+                if z.get("circuit", 2 if z["conj"] else 1) == 1:
+                    z1 = e @ z1
+                else:
+                    z2 = e @ z2
+        old_m, new_m = custom_mpo(c["before"]).to_matrix(), custom_mpo(c["after"]).to_matrix()
+        want = z1 @ (old_m @ g_full.conj().T if c["conj"] else g_full @ old_m) @ z2.conj().T
+        rel = float(np.linalg.norm(new_m - want)) / max(1.0, float(np.linalg.norm(want)))
+        ELR["layer_dev"] = max(ELR["layer_dev"], rel)
+        if rel > ELR_STEP_TOL + 1e4 * thr + 100 * lossy:
+            alt = z1 @ (old_m @ g_full.T if c["conj"] else g_full.conj() @ old_m) @ z2.conj().T
+            near = " (it equals the variant with conj(G) / G^T in place of G^dagger / G)" if float(np.linalg.norm(new_m - alt)) <= 1e-7 else ""
+            probs.append(f"layer {li}: {name}{ps} on {qs}, conjugate={c['conj']}, chain bonds before {[t.shape[3] for t in c['before'][:-1]]}: to_matrix(after) "
+                         f"differs from {'Z1.before.G^dagger.Z2^dagger' if c['conj'] else 'Z1.G.before.Z2^dagger'} by {rel:.2e} (relative){near}")
+        if steps is not None:
+            biggest = 0
+            for m, za, zb, d in steps:
+                tm, uu, ss, vh = d["svd"]
+                keep = d["out"][0].shape[3]
+                kept = (uu[:, :keep] * ss[:keep]) @ vh[:keep]
+                er = float(np.linalg.norm(kept - tm)) / max(1.0, float(np.linalg.norm(tm)))
+                ELR["exact_rel"] = max(ELR["exact_rel"], er)
+                ELR["max_bond"] = max(ELR["max_bond"], keep)
+                biggest = max(biggest, tm.shape[0] * tm.shape[1])
+                if er > 1e-9:
+                    ELR["exact_bad"] += 1
+                    ELR["exact_detail"] = f"layer {li} pair {m}: kept {keep}/{len(ss)}, ||kept - block|| / ||block|| = {er:.2e}, threshold {thr}"
+                for z in (za, zb):
+                    for gg, ins in zip(z["gates"], z["instrs"]):
+                        if [int(q) for q in gg.sites] != [int(q) for q in ins[1]] or int(gg.interaction) != len(ins[1]):
+                            sprobs.append(f"layer {li}: gate object for {ins[0]} on {ins[1]} has sites {list(gg.sites)}")
+            if biggest <= ELR_MAX_TIE_ENTRIES:
+                tie_cands.append((li, c, g, steps))
+            else:
+                ELR["skipped_big"] += 1
+    if len(rec.layers) >= 2:
+        ELR["row_layers"] += sum(1 for a, b in zip(rec.layers, rec.layers[1:]) if b["u0"] == a["u0"])
+    if sprobs:
+        ELR["shape_bad"] += 1
+        ELR["shape_detail"] = f"n={n} c1={i1} c2={i2}: " + "; ".join(sprobs[:3])
+    out.append({"req": None, "impl": None, "kind": "e2e-lr-layer", "oracle": {"ok": not probs, "detail": "; ".join(probs[:3]) or
+                f"{len(rec.layers)} long-range layers, each = zones . (G.before | before.G^dagger)"},
+                "sig": f"e2e-lr-layer:{n}:{style}:{sum(1 for c in rec.layers if not c['conj'])}:{sum(1 for c in rec.layers if c['conj'])}",
+                "nontrivial": len(rec.layers) > 0})
+    # ---------------------------------------------------------------- layers through the driver
+    rr = random.Random(inp["sub"] + 2)
+    rr.shuffle(tie_cands)
+    tie_cands.sort(key=lambda t: -len(t[3]) if rr.random() < 0.5 else 0)
+    for li, c, g, steps in tie_cands[:3]:
+        name, qs, ps = g["instr"]
+        lo, hi = min(qs), max(qs)
+        span = hi - lo + 1
+        parts, impl = [], []
+        for m, za, zb, d in steps:
+            tm, uu, ss, vh = d["svd"]
+            g1, g2 = za["gates"], zb["gates"]
+            parts.append(f"{m} {len(g1)} {len(g2)} {len(ss)} | " + "".join(gate_part(x) + " | " for x in g1 + g2) + dec_parts(uu, ss, vh))
+            impl.append(f"tm {tm.shape[0]} {tm.shape[1]} {centries(tm)} | keep {d['out'][0].shape[3]}")
+        req = (f"lrlayer {2 if c['conj'] else 1} 2 {ib.frac(c['thr'])} {qs[0]} {qs[1]} {span} {n} {len(steps)} | "
+               + " | ".join(site_tokens(t) for t in g["mpo"]) + " | " + " | ".join(site_tokens(t) for t in c["before"]) + " | " + " | ".join(parts))
+        ELR["tied_layers"] += 1
+        out.append({"req": req, "impl": " | ".join(impl + ["chain"] + [site_tokens(t) for t in c["after"][lo:hi + 1]]), "kind": "e2e-lr-tie", "oracle": None,
+                    "sig": f"e2e-lr-tie:{n}:{name}:{span}:{int(c['conj'])}:{qs[0] < qs[1]}:" + "".join(str(t.shape[3]) for t in c["before"][lo:hi]),
+                    "nontrivial": True})
+    if tie_cands:
+        li, c, g, steps = tie_cands[0]
+        name, qs, ps = g["instr"]
+        lo, hi = min(qs), max(qs)
+        gm = [np.transpose(np.conj(t), (1, 0, 2, 3)) for t in g["mpo"]] if c["conj"] else g["mpo"]
+        stacked = []
+        for k, t in enumerate(gm):                               # the reshaped einsums of the code, site by site, no SVD
+            w = c["before"][lo + k]
+            if c["conj"]:
+                th = oe.contract("abcd,cefg->febagd", np.transpose(t, (0, 2, 1, 3)), np.transpose(np.transpose(w, (1, 0, 2, 3)), (0, 2, 1, 3)))
+            else:
+                th = oe.contract("abcd,cefg->abefdg", np.transpose(t, (0, 2, 1, 3)), np.transpose(w, (0, 2, 1, 3)))
+            dd = th.shape
+            stacked.append(np.transpose(np.reshape(th, (dd[0], dd[1] * dd[2], dd[3], dd[4] * dd[5])), (0, 2, 1, 3)))
+        if sum(t.size for t in stacked) <= 4096:
+            out.append({"req": f"lrstack {2 if c['conj'] else 1} 2 {lo} {hi - lo + 1} {n} | " + " | ".join(site_tokens(t) for t in g["mpo"]) + " | "
+                        + " | ".join(site_tokens(t) for t in c["before"]), "impl": " | ".join(site_tokens(t) for t in stacked), "kind": "e2e-lr-stack",
+                        "oracle": None, "sig": f"e2e-lr-stack:{n}:{name}:{hi - lo + 1}:{int(c['conj'])}", "nontrivial": True})
+    # ---------------------------------------------------------------- the ORDER of the product, both argument orders
+    final = mpo.to_matrix()
+    ref = u1 @ u2.conj().T
+    tol = NUM_TOL + 1e4 * thr * max(1, len(i1) + len(i2)) + 100 * lossy * dim
+    dev = float(np.linalg.norm(final - ref))
+    alts = {"U2.U1^dagger": u2 @ u1.conj().T, "U1^dagger.U2": u1.conj().T @ u2, "U2^dagger.U1": u2.conj().T @ u1, "U1.U2^T": u1 @ u2.T,
+            "conj(U1).U2^dagger": u1.conj() @ u2.conj().T}
+    disc = [k for k, a in alts.items() if float(np.linalg.norm(a - ref)) > 1e-3]
+    oprobs = []
+    if dev > tol:
+        near = [k for k, a in alts.items() if float(np.linalg.norm(final - a)) <= tol]
+        oprobs.append(f"to_matrix() of the final MPO differs from U1.U2^dagger by {dev:.3e} (> {tol:.1e})" + (f"; it equals {near[0]}" if near else ""))
+    mpo_sw = MPO()
+    mpo_sw.identity(n)
+    mu.iterate(mpo_sw, circuit_to_dag(build(n, i2)), circuit_to_dag(build(n, i1)), thr)
+    dev_sw = float(np.linalg.norm(mpo_sw.to_matrix() - u2 @ u1.conj().T))
+    if dev_sw > tol:
+        oprobs.append(f"swapped call: to_matrix() differs from U2.U1^dagger by {dev_sw:.3e}")
+    ELR["order_dev"] = max(ELR["order_dev"], dev, dev_sw)
+    if len(disc) == len(alts):
+        ELR["order_discriminating"] += 1
+    out.append({"req": None, "impl": None, "kind": "e2e-lr-order", "oracle": {"ok": not oprobs, "detail": "; ".join(oprobs) or
+                f"final MPO = U1.U2^dagger (dev {dev:.1e}), swapped call = U2.U1^dagger (dev {dev_sw:.1e}); distinguishable from {len(disc)}/{len(alts)} other conventions"},
+                "sig": f"e2e-lr-order:{n}:{len(disc)}", "nontrivial": len(disc) == len(alts)})
+    # ---------------------------------------------------------------- the scalar and the verdict, both argument orders
+    want_tr = complex(np.trace(u1.conj().T @ u2))
+    ov = abs(want_tr) / dim
+    stol = E2E_SCALAR_TOL * dim + 100 * lossy * dim
+    fids = [f for f in (ov * (1 - 1e-3), ov * (1 + 1e-3), ov + 1e-5, 0.5) if f > 0.0]
+    for which, m_, wtr in (("12", mpo, want_tr), ("21", mpo_sw, want_tr.conjugate())):
+        for f in fids[: (4 if which == "12" else 2)]:
+            with Spy() as spy:
+                got = bool(m_.check_if_identity(f))
+            tr = complex(spy.traces[-1])
+            sdev = abs(tr - wtr)
+            ELR["scalar_dev"] = max(ELR["scalar_dev"], sdev)
+            vprobs = []
+            if sdev > stol:
+                ELR["scalar_bad"] += 1
+                ELR["scalar_detail"] = f"n={n} c1={i1} c2={i2} order {which}: check_if_identity computed {tr!r}; expected {wtr!r}"
+            if abs(abs(tr) - abs(wtr)) > stol:
+                vprobs.append(f"order {which}: check_if_identity computed a scalar of modulus {abs(tr)!r}; |tr(U1^dagger U2)| = {abs(wtr)!r}")
+            if abs(ov - f) > EPS_MARGIN + 100 * lossy and got != (ov > f):
+                vprobs.append(f"order {which}: |tr(U1^dagger U2)|/2^n = {ov!r}, fidelity {f!r}: check_if_identity says {got}")
+            orc = {"ok": not vprobs, "detail": "; ".join(vprobs) or f"order {which}: scalar = tr(U1^dagger U2) (dev {sdev:.1e}); verdict {got} at f={f!r}, overlap {ov!r}"}
+            t = np.abs(spy.traces[-1])
+            edge = abs(float(t) / dim - f) <= 1e-12 * max(1.0, f)
+            out.append(dict(verdict_case(t, n, f, got, "e2e-lr-verdict", f"e2e-lr-verdict:{n}:{which}:{got}:{'gt' if f > ov else 'lt'}", orc), edge=edge))
+    f0 = fids[inp["sub"] % 2] if len(fids) > 1 else fids[0]
+    with Spy() as spy:
+        got0 = bool(mpo.check_if_identity(f0))
+    tr0 = complex(spy.traces[-1])
+    if sum(np.asarray(t).size for t in mpo.tensors) <= 1200:
+        out.append({"req": f"idtrace {ib.frac(f0)} | " + " | ".join(site_tokens(t) for t in mpo.tensors), "impl": f"tr {ib.cfrac(tr0)} dec {int(got0)}",
+                    "kind": "e2e-lr-idtrace", "oracle": None, "edge": abs(abs(tr0) / dim - f0) <= 1e-9 * max(1.0, f0),
+                    "sig": f"e2e-lr-idtrace:{n}:{int(got0)}:" + "".join(str(np.asarray(t).shape[3]) for t in mpo.tensors), "nontrivial": abs(tr0) > 0})
+    return out
+
+
+def e2e_lr_spec():
+    return [{"name": "e2e-lr: per long-range layer of the real iterate to_matrix(after) = Z1.G.to_matrix(before).Z2^dagger (gate of circuit 1) resp. "
+                     "Z1.to_matrix(before).G^dagger.Z2^dagger (gate of circuit 2), G = qiskit Operator of the single gate; final MPO = U1.U2^dagger, swapped call = "
+                     "U2.U1^dagger; scalar = tr(U1^dagger U2) in both argument orders",
+             "ok": True, "runs": ELR["n"], "layers": ELR["layers"], "layers_from_circuit_1": ELR["layers_top"], "layers_from_circuit_2": ELR["layers_bottom"],
+             "swap_layers": ELR["swap_layers"], "layers_on_bonds_gt_1": ELR["bonded_layers"], "layers_directly_after_another_layer": ELR["row_layers"],
+             "largest_span": ELR["max_span"], "largest_bond": ELR["max_bond"], "layers_sent_to_driver": ELR["tied_layers"], "layers_too_big_for_the_driver": ELR["skipped_big"],
+             "order_discriminating_runs": ELR["order_discriminating"], "worst_layer_relative_deviation": ELR["layer_dev"], "worst_final_deviation": ELR["order_dev"],
+             "worst_scalar_deviation": ELR["scalar_dev"], "tolerances": {"layer": ELR_STEP_TOL, "final": "NUM_TOL + 1e4*thr*gates", "scalar": f"{E2E_SCALAR_TOL}*2^n"}},
+            {"name": "e2e-lr: hypothesis GateMpoOK of long_range_layer_chain / iterate_represents_product_lr on the real runs — to_matrix of gate_.mpo_tensors "
+                     "(split_tensor's SVD + extend_gate) is gate.tensor on the END sites of the span, identity in between, and gate.tensor on the register is "
+                     "qiskit's operator of the gate (both orientations); split_tensor cuts operator-Schmidt values <= 1e-6, so 2e-6 is allowed for the first",
+             "ok": ELR["gatempo_bad"] == 0, "n": ELR["layers"], "worst_deviation": ELR["gatempo_dev"], "detail": ELR["gatempo_detail"]},
+            {"name": "e2e-lr: hypothesis SymLR (library_two_qubit_gates_symmetric) — the stored 4x4 matrix of every long-range gate object is symmetric",
+             "ok": ELR["sym_bad"] == 0, "n": ELR["layers"], "worst_deviation": ELR["sym_dev"], "detail": ELR["sym_detail"]},
+            {"name": "e2e-lr: hypothesis ExactBlocks — the kept part of every SVD inside a long-range layer reproduces the block handed to it",
+             "ok": ELR["exact_bad"] == 0, "n": ELR["layers"], "worst_relative_residual": ELR["exact_rel"], "detail": ELR["exact_detail"]},
+            {"name": "e2e-lr: the real run has the shape CheckerChain.runStepsLR assumes — every layer / update starts from what the previous call left, a layer "
+                     "touches only the tensors of its span, one pair update per entry of lrPairs (hanging site last), zone of circuit 1 plain then zone of circuit 2 "
+                     "conjugated, gate objects carry the instruction's qubits (hypothesis LRCircuit)",
+             "ok": ELR["shape_bad"] == 0, "n": ELR["n"], "detail": ELR["shape_detail"]},
+            {"name": "e2e-lr: the scalar check_if_identity computes is tr(U1^dagger U2) as a complex number, in both argument orders (checker_correct_lr, checker_swap_lr)",
+             "ok": ELR["scalar_bad"] == 0, "n": ELR["n"], "worst_deviation": ELR["scalar_dev"], "detail": ELR["scalar_detail"]}]
+
+
+def gen_e2e_lr(rng, tier):
+    m = {"quick": 70, "thorough": 700, "search": 120}.get(tier, 70)
+    for _ in range(m):
+        yield {"kind": "e2e-lr", "sub": rng.randrange(1 << 30)}
+
+
 def gen(rng, tier):
     """the original kinds keep their random stream; the tensor kinds (cheap) are drawn afterwards and run first"""
     base = list(gen_base(rng, tier))
     tens = list(gen_tensor(rng, tier))
     e2e = list(gen_e2e(rng, tier))                          # drawn last: the streams of the older kinds are unchanged
+    e2e_lr = list(gen_e2e_lr(rng, tier))                    # (xl04) drawn after everything else, for the same reason
     yield from tens
     yield from e2e
+    yield from e2e_lr
     yield from base
 
 
 def run(inp):
     res = run_kind(inp)
+    if isinstance(res, dict):                                # (xl04) `real_code_raised` returns one case, not a list: a real-code exception on a
+        res = [res]                                          # corpus input used to crash here (harness error instead of a failing input)
     if "corpus_file" in inp:
         for r in res:
             r["kind"] = "corpus:" + str(r.get("kind", ""))
@@ -1453,7 +1865,7 @@ def spec():
     return [{"name": "numeric tie: final MPO of the real iterate vs U1 U2^dag (qiskit Operator)", "ok": True, "n": WORST["numeric_n"],
              "worst_deviation": WORST["numeric_dev"], "worst_deviation_over_tolerance": WORST["numeric_rel_tol"]},
             {"name": "overlap |trace|/2^n computed by the checker vs exact |tr(U1^dag U2)|/2^n", "ok": True, "n": WORST["overlap_n"],
-             "worst_deviation": WORST["overlap_dev"], "margin_used_by_oracles": EPS_MARGIN}] + t_spec() + e2e_spec()
+             "worst_deviation": WORST["overlap_dev"], "margin_used_by_oracles": EPS_MARGIN}] + t_spec() + e2e_spec() + e2e_lr_spec()
 
 
 def run_kind(inp):
@@ -1462,6 +1874,8 @@ def run_kind(inp):
         return T_RUNNERS[k](inp)
     if k == "e2e":
         return real_code_raised(run_e2e)(inp)
+    if k == "e2e-lr":
+        return real_code_raised(run_e2e_lr)(inp)
     if k == "diag":
         return run_diag(inp)
     if k == "iter":
@@ -1494,14 +1908,23 @@ if __name__ == "__main__":
                  "+- a small rz), thresholds 1e-13/1e-14: event list vs iter, up to five recorded update_mpo calls per run vs update, the "
                  "final chain vs idtrace, verdict at six fidelities around the exact overlap; oracles: updates chain up from MPO.identity, "
                  "each update = embedded zone products, final = U1.U2^dagger (order asserted against five other conventions, swapped call), "
-                 "scalar = tr(U1^dagger U2)",
+                 "scalar = tr(U1^dagger U2); "
+                 "end to end with long-range gates (e2e-lr): random pairs with two-qubit gates and swaps at distance 2..5 in either orientation, in circuit 1, "
+                 "circuit 2 or both, several in a row, on chains that already have bonds > 1, equivalent resynthesised pairs (n=3..6, thresholds 1e-13/1e-14): "
+                 "event list vs iter, every real apply_long_range_layer recorded — up to three layers per run vs lrlayer (block handed to every SVD, kept ranks, "
+                 "tensors of the span), the stacked span vs lrstack, final chain vs idtrace; oracles: each layer = zones.(G.before | before.G^dagger), final = "
+                 "U1.U2^dagger and swapped call = U2.U1^dagger, scalar = tr(U1^dagger U2) in both argument orders",
             trusted_base=["qiskit Operator (dense reference unitary) and numpy in the oracles",
                           "qiskit circuit_to_dag / layers / remove_op_node modelled as the wire-dependency front of an instruction list (trace-tied)",
                           "tensor numerics of the MPO build (apply_gate, decompose_theta, long-range gate MPO) modelled-not-verified: numeric tie only",
                           "extension: the index algebra of those contractions is now modelled (Model/MpoUpdate.lean) and value-tied; what stays "
                           "outside is LAPACK's SVD (spec-tied on every matrix decompose_theta hands to it) and binary64 rounding",
                           "end to end (Part D): the theorems assume untruncated splits (ExactSteps), nearest-neighbour circuits and gate objects carrying "
-                          "the instruction's qubits (NNCircuit) — all three spec-tied on every e2e run; long-range gates stay numeric-tie only"],
+                          "the instruction's qubits (NNCircuit) — all three spec-tied on every e2e run; long-range gates stay numeric-tie only",
+                          "long-range layers (Part E): the theorems assume that gate_.mpo_tensors represent the gate on the end sites of its span (GateMpoOK; "
+                          "from an exact split by gate_mpo_is_gate_on_ends, the split being LAPACK's SVD of the 4x4 gate with singular values <= 1e-6 cut), "
+                          "symmetric long-range gates in the second circuit (SymLR; proved for the library's tables) and untruncated splits (ExactBlocks) — "
+                          "all spec-tied on every e2e-lr run"],
             assumptions=["t handed to the model is the binary64 |trace| the real scalar_product returned, as an exact rational",
                          "barriers / measurements / one-qubit registers are outside the iterate model (n = 1 is tied to the model's `assert`)"],
             spec=spec)
